@@ -2,8 +2,12 @@
 # re-runs every kept seeded change against the checks recorded as catching it (quick tier); prints one line per (seed, check)
 ROOT=$(cd "$(dirname "$0")/.." && pwd)
 export MUTWT=${MUTWT:-/tmp/seedwt}
+# SEEDSHARD=i/n runs every n-th seed starting at the i-th (for parallel runs, each with its own MUTWT)
+SI=${SEEDSHARD%/*}; SN=${SEEDSHARD#*/}; K=0
 for d in $ROOT/seeded/*/; do
   n=$(basename $d)
+  K=$((K+1))
+  if [ -n "${SEEDSHARD:-}" ] && [ $((K % SN)) -ne $((SI % SN)) ]; then continue; fi
   checks=$(python3 -c "import json,sys;print(' '.join(json.load(open('$d/meta.json'))['caught_by']))")
   $ROOT/tools/seedrun.sh $n $checks
 done
